@@ -175,21 +175,22 @@ def extract(kind, msg):
 def real_message(kind, vals, rep):
     """build the message with the real classes, push it through the real UPER coder and decode it again"""
     tpv = rep.concrete(vals)
-    if kind == "CAM":
-        m = CooperativeAwarenessMessage()
-        m.fullfill_with_vehicle_data(VehicleData(station_id=7, station_type=5))
-        m.fullfill_with_tpv_data(tpv)
-        coder, built = asn.compiled("CAM")[0], m.cam
-    else:
-        m = VAMMessage()
-        m.fullfill_with_device_data(DeviceDataProvider(station_id=7, station_type=1))
-        m.fullfill_with_tpv_data(tpv)
-        coder, built = asn.compiled("VAM")[0], m.vam
     err = None
     decoded = None
+    built = None
     try:
+        if kind == "CAM":
+            m = CooperativeAwarenessMessage()
+            m.fullfill_with_vehicle_data(VehicleData(station_id=7, station_type=5))
+            m.fullfill_with_tpv_data(tpv)
+            coder, built = asn.compiled("CAM")[0], m.cam
+        else:
+            m = VAMMessage()
+            m.fullfill_with_device_data(DeviceDataProvider(station_id=7, station_type=1))
+            m.fullfill_with_tpv_data(tpv)
+            coder, built = asn.compiled("VAM")[0], m.vam
         decoded = coder.decode(coder.encode(built))
-    except Exception as e:
+    except Exception as e:          # noqa: building the message from a report, or encoding it, failed
         err = e
     return tpv, built, decoded, err
 
@@ -198,7 +199,7 @@ def replay_mapping(kind, rep):
     def f(vals):
         tpv, built, decoded, err = real_message(kind, vals, rep)
         if err is not None:
-            return True, f"{kind} for report {tpv}: real coder raised {type(err).__name__}: {err}"
+            return True, f"{kind} for report {tpv}: building / encoding the message raised {type(err).__name__}: {err}"
         want = py_spec(tpv, kind)
         got = extract(kind, decoded)
         bad = [f"{k}: decoded {got[k]}, expected {w}" for k, w in want.items() if got[k] != w]
